@@ -384,14 +384,14 @@ func init() {
 	})
 	eng.Register(&eng.Scenario{
 		Name: "routine-retry", Props: []string{"C04", "C05"}, ObsNames: stdObs,
-		Doc:   "RoutineContainer with retry back-off (auto timers: the retry fires at any time): the first instance returns an error, later ones run until cancelled; controller issues words of length 2 over {SetRoutine(new), RestartRoutine, SetContext(fresh,true), ClearContext}",
+		Doc:   "RoutineContainer with retry back-off (auto timers: the retry fires at any time): the first instance returns an error, later ones run until cancelled; controller issues words of length 2 over {SetRoutine(new), RestartRoutine, SetContext(fresh,true|false), SetContext(same,false), ClearContext}; the survivor must derive from the current context also when it was started by the retry timer",
 		Quick: eng.Bounds{PB: 1}, Thorough: eng.Bounds{PB: 2},
 		Body: func() {
 			o := newRCRetry()
 			var cur context.Context
 			doLetter(o, lCtxFresh, &cur, "")
 			doLetter(o, lSetRoutine, &cur, "")
-			alpha := []int{lSetRoutine, lRestart, lCtxFreshRestart, lClear}
+			alpha := []int{lSetRoutine, lRestart, lCtxFreshRestart, lClear, lCtxFresh, lCtxSame}
 			for i := 0; i < 2; i++ {
 				doLetter(o, alpha[vsched.Choose(len(alpha))], &cur, "")
 			}
